@@ -274,6 +274,15 @@ def check(ctx, rep):
                         v = G.describe(b_disp, st["rv"]["op"])
                         if v.kind == "conststr":
                             t_disp[knames.get(int(val), "?")] = v.v
+        if not t_disp and t_to is not None:
+            # Display may reuse the name table instead of repeating it: what it writes is From<HaystackKind>::from(*self)
+            for _bi, tt in b_disp.calls():
+                c = callee_of(tt)
+                nm2 = strip_generics((c.get("res") or c["fn"]) if c else "")
+                targs = [x for x in (c.get("targs", []) if c else []) if not x.startswith("'")]
+                is_table = (b_to is not None and nm2 == strip_generics(b_to.id)) or ((nm2.endswith("Into<U>>::into") or nm2.endswith("Into>::into")) and len(targs) == 2 and targs[0].endswith("kind::HaystackKind") and targs[1].replace("'static ", "") in ("&str", "&'static str"))
+                if is_table and tt["args"] and re.fullmatch(r"_1\**", repr(G.describe(b_disp, tt["args"][0]))):
+                    t_disp = dict(t_to)
     if b_from is not None:
         tab = str_match_table(b_from)
         t_from = {s: v[2] for s, v in tab.items() if v and v[0] == "variant" and v[1] == "Ok"}
@@ -440,6 +449,8 @@ def check_make_from_dicts(ctx, rep):
         nm = strip_generics(mir.callee_name(t) or "")
         if nm.split("::")[-1] in MUT and t["args"]:
             r = repr(G.describe(b, t["args"][0]))
+            if nm.split("::")[-1] in ("into_iter", "iter_mut") and (nm.startswith("<&'a std::vec::Vec") or nm.startswith("<&std::vec::Vec") or nm.startswith("<&'")) and not nm.startswith("<&'a mut") and "&mut" not in nm:
+                continue  # `for row in &rows`: a shared borrow
             if re.fullmatch(r"_1\*?", r):
                 touched.append((bi, nm.split("::")[-1]))
     moved = False
